@@ -9,17 +9,20 @@ CFG = {
     "level_text": "Coq theorems about an exact-rational model of triangulation.BowyerWatson: vertex identity, common "
                   "clockwise winding with non-zero area under general position, independence of the Go map's iteration "
                   "order (for every schedule), the repaired super triangle strictly contains every input (all scales and "
-                  "offsets) while the pinned one does not, one insertion preserves the empty-circumcircle invariant given "
-                  "a star-shaped cavity and hence (bw_delaunay_partial) the whole run is Delaunay given that hypothesis at "
-                  "every step; a Delaunay checker proved sound AND complete for the four conjuncts of the statement. The "
-                  "checker is run (vm_compute) on every output of the Go code; the model is tied to the Go code by "
-                  "requiring the same triangle set on exact grid inputs, and the cavity hypotheses of the conditional "
-                  "theorem are decided (proved decision procedure) on every model-compared input",
+                  "offsets) while the pinned one does not; the geometric core of Bowyer-Watson: the triangle around the new "
+                  "point is bad, every boundary edge of the cavity sees the new point on its inner side (pencil-of-circles "
+                  "monotonicity), one insertion preserves the empty-circumcircle invariant, and hence "
+                  "(bw_delaunay_partial) the whole run returns clockwise triangles with empty circumcircles GIVEN only the "
+                  "combinatorial invariant closed_run (edge closure at every step); a Delaunay checker proved sound AND "
+                  "complete for the four conjuncts of the statement. The checker is run (vm_compute) on every output of "
+                  "the Go code; the model is tied to the Go code by requiring the same triangle set on exact / "
+                  "sign-faithful inputs, and closed_run is decided (proved decision procedure) on every model-compared input",
     "level_note": "Trusted: Coq kernel + vm_compute; hand-written model tied by differential correspondence only; "
-                  "full Delaunay correctness of the algorithm (bw_delaunay) is NOT proved - bw_delaunay_partial assumes "
-                  "star-shaped cavities (checked per tested input, not proved for all); non-overlap of the algorithm's "
-                  "output is only checked per case by the certified checker; coverage of the convex hull fails on /repo "
-                  "HEAD (known finding, bw_coverage_refuted)",
+                  "full Delaunay correctness of the algorithm (bw_delaunay) is NOT proved: open are the preservation of "
+                  "edge closure by an insertion (reduced to edge_unique + boundary_chains by insert_keeps_closed_partial; "
+                  "closed_run is checked per tested input) and the non-overlap of the algorithm's output (checked per case "
+                  "by the certified checker); coverage of the convex hull fails on /repo HEAD (known finding, "
+                  "bw_coverage_refuted)",
     "technique": "Coq proof (reflection of a bounding-box / separating-edge / Fourier-Motzkin and in-circle checker over Q; "
                  "invariants by induction over the insertion sequence; pencil-of-circles identity by ring) + vm_compute "
                  "correspondence check",
